@@ -215,7 +215,7 @@ class _WriteRequest:
                 'Address did not match when adding data to read request!')
             return
 
-        if self._progress_cb is not None:
+        if self._progress_cb is not None and self._write_len > 0:
             new_progress = int(100 * (self._write_len - self._bytes_left) / self._write_len)
             if new_progress > self._progress:
                 self._progress = new_progress
